@@ -50,8 +50,8 @@ LIGHT_MENUS = (
     ("HLightNo",),
     ("HLightNo", "HLight"),
 )
-EXC_ALL = ("SimFault", "SimRuntime", "SimCancel")
-EXC_EXCEPTION = ("SimFault", "SimRuntime")
+EXC_EXCEPTION = ("SimFault", "SimRuntime", "SimAssert", "SimLookup", "SimStop", "SimTreeError")
+EXC_ALL = EXC_EXCEPTION + ("SimCancel",)
 STRUCT_OPS = ("parent", "children", "del", "new")
 
 
@@ -112,10 +112,16 @@ def gen_cfg(rng, prop, tier):
     else:
         length = rng.randint(1, 12)
     big = prop in ("C01", "C02", "C03", "C04", "C16") and rng.random() < (0.02 if thorough else 0.01)
+    deep = prop in ("C01", "C02", "C03") and rng.random() < (0.001 if thorough else 0.0005)
     if big:
         # a few large universes: wide stars, deep chains, big random forests
         n_nodes = rng.randint(40, 150 if prop == "C04" else 300)
         length = rng.randint(1, 5)
+    if deep:
+        # one chain deeper than Python's recursion limit: ancestor walks must not be cut short
+        big = True
+        n_nodes = (rng.randint(992, 1008) if rng.random() < 0.5 else rng.randint(1030, 1250)) + 6
+        length = rng.randint(2, 5)
     classes = []
     targets = []
     for i in range(n_nodes):
@@ -130,8 +136,11 @@ def gen_cfg(rng, prop, tier):
         "menu": list(menu),
         "classes": classes,
         "targets": targets,
-        "init_parents": gen_init_forest(rng, n_nodes, big),
+        # deep: one chain, plus three separate parent/child pairs that can be moved below its far end
+        "init_parents": ([None] + list(range(n_nodes - 7)) + [None, n_nodes - 6, None, n_nodes - 4, None, n_nodes - 2])
+        if deep else gen_init_forest(rng, n_nodes, big),
         "big": big,
+        "deep": deep,
         "L": length,
         "obs": 1,
         "observe_hooks": False,
@@ -179,6 +188,10 @@ def gen_cfg(rng, prop, tier):
         cfg["observe_hooks"] = True  # hooks that look at the parent's children while the update is in flight
     if prop in ("C01", "C02", "C04", "C16", "C18") and rng.random() < 0.3:
         cfg["hook_reads"] = rng.sample(("size", "height", "path", "root", "children", "depth", "leaves", "siblings", "descendants"), rng.randint(1, 3))
+    if big:
+        # recursive attributes (size, height, descendants) read from inside a hook need a stack proportional
+        # to the depth; that is a limit of Python/anytree, not a property
+        cfg.pop("hook_reads", None)
     cfg["p_fault"] = rng.choice((0.2, 0.35, 0.5, 1.0)) if cfg["profile"] != "none" else 0.0
     cfg["persist_run"] = cfg["profile"] == "persist" and rng.random() < 0.4
     if cfg["persist_run"]:
@@ -270,7 +283,36 @@ def apply_op(model, op, newidx=None):
             model.apply_children(n, op["xs"])
 
 
+def gen_deep_op(rng, model, cfg, step):
+    """Operations for the one-deep-chain universes: moves between the two ends of the chain."""
+    n = len(cfg["classes"]) - 6  # the chain
+    top = lambda: rng.randrange(0, 12)  # noqa: E731
+    bottom = lambda: rng.randrange(n - 12, n)  # noqa: E731
+    r = rng.random()
+    if r < 0.25:
+        # a node that has a parent elsewhere moves below the far end of the chain
+        op = {"op": "parent", "n": n + rng.choice((1, 3, 5)), "p": rng.randrange(n - 3, n)}
+    elif r < 0.35:
+        op = {"op": "parent", "n": top(), "p": bottom()}  # would close a cycle: LoopError
+    elif r < 0.5:
+        op = {"op": "children", "n": bottom(), "xs": [top()], "c": "list"}  # LoopError through the children setter
+    elif r < 0.7:
+        op = {"op": "parent", "n": bottom(), "p": top()}  # legal move of a deep node
+    elif r < 0.85:
+        op = {"op": "parent", "n": bottom(), "p": None}
+    else:
+        op = {"op": "parent", "n": rng.randrange(n), "p": rng.randrange(n)}
+    if cfg["profile"] != "none" and rng.random() < 0.4:
+        exp = expect_of(model, op)
+        f = gen_fault(rng, "once", len(exp.trace), cfg["hooks"], cfg["excs"], exp.trace)
+        if f is not None:
+            op["f"] = f
+    return op
+
+
 def gen_op(rng, model, cfg, step):
+    if cfg.get("deep"):
+        return gen_deep_op(rng, model, cfg, step)
     w = cfg["w"]
     n_nodes = len(model)
     kinds = [("parent", w["parent"]), ("children", w["children"]), ("del", w["del"])]
@@ -391,7 +433,7 @@ def op_brief(op):
 
 
 def fired_brief(fired):
-    return ",".join("%s@%d%s" % (f[1], f[0], f[3][3]) for f in fired)
+    return ",".join("%s@%d%s" % (f[1], f[0], f[3][3:5]) for f in fired)
 
 
 # -- C03 ------------------------------------------------------------------------------------
@@ -623,9 +665,16 @@ def build_world(cfg, world=None):
     for i, p in enumerate(cfg.get("init_parents") or ()):
         if p is not None:
             # plain parent assignments, outside any operation (hooks are not routed)
-            world.nodes[i].parent = world.nodes[p]
+            try:
+                world.nodes[i].parent = world.nodes[p]
+            except Exception as exc:  # noqa: BLE001
+                raise SetupRefused("building the initial forest: node %d refused parent %d (a legal attach): %s: %s" % (i, p, type(exc).__name__, exc))
             model.apply_parent(i, p)
     return world, model
+
+
+class SetupRefused(Exception):
+    pass
 
 
 def run(cfg, ops=None, rng=None, extra=None, pre_gen=None, handle=None):
@@ -636,7 +685,14 @@ def run(cfg, ops=None, rng=None, extra=None, pre_gen=None, handle=None):
     a structural one and `handle(step, world, model, res, op)` executes it."""
     prop = cfg["prop"]
     res = Result()
-    world, model = build_world(cfg)
+    try:
+        world, model = build_world(cfg)
+    except SetupRefused as sr:
+        res.violation = Violation(prop if prop in ("C02", "C20") else "GUARD", "setup", -1, "setup-refused", str(sr))
+        res.ops = list(ops) if ops is not None else []
+        res.digest = "setup"
+        res.bump("runs")
+        return res
     res.world = world
     h = hashlib.blake2b(digest_size=16)
     h.update(repr(sorted(cfg.items())).encode())
@@ -661,7 +717,7 @@ def run(cfg, ops=None, rng=None, extra=None, pre_gen=None, handle=None):
                 continue
             exp = expect_of(model, op)
             pre = model.snapshot()
-            sig_shape = shape_sig(model, op_marks(op))
+            sig_shape = "deep" if cfg.get("deep") else shape_sig(model, op_marks(op))
             try:
                 status, exc = exec_op(world, op)
             except Watchdog as wd:
@@ -750,8 +806,9 @@ def run(cfg, ops=None, rng=None, extra=None, pre_gen=None, handle=None):
                     clause,
                     step,
                     "%s:%s:%s" % (clause, op["op"], fired[0][1] if fired else "-"),
-                    "after step %d %s (faults: %s): %s"
-                    % (step, op, fired_brief(fired) or "none", "; ".join(d for _, d in bad[:3])),
+                    "after step %d %s (outcome: %s; faults: %s): %s"
+                    % (step, op, excname or "returned", fired_brief(fired[:6]) + (" ... %d in all" % len(fired) if len(fired) > 6 else "") or "none",
+                       "; ".join(d for _, d in bad[:3])),
                 )
             if prop == "C20":
                 c02_judge(step, op, exp, status, excname, exc, fired, post, ideal, prop)
@@ -931,7 +988,9 @@ def sweep(cfg, res, rng, tier):
     if cfg["profile"] != "none" or cfg.get("big") or len(res.ops) > (10 if tier == "thorough" else 6):
         return
     hooks = cfg["hooks"]
-    excs = cfg["excs"] if tier == "thorough" else cfg["excs"][:1] + cfg["excs"][2:]
+    excs = list(cfg["excs"])
+    if tier != "thorough":
+        excs = excs[:1] + [e for e in excs[1:] if e in ("SimAssert", "SimCancel")]
     counts = res.hooks_per_op
     kinds = None if tuple(hooks) == ALL_HOOKS else list(hooks)
     base = [with_fault(op, None) for op in res.ops]
